@@ -4,10 +4,15 @@ All implementation code (the rebuilt C extension, pyhv, the wrappers) runs here 
 process, so that a segmentation fault or an endless loop in a (mutated) implementation becomes a reported
 failing input instead of killing the check.
 
-usage: c15_worker.py JOBS.jsonl OUT.jsonl HV_SO_PATH|-
+usage: c15_worker.py JOBS.jsonl OUT.jsonl HV_SO_PATH|-|FALLBACK
 Each job is a JSON object; before every back-end call a marker line "#<index> <backend>" is written, after the
 job a line [index, {backend: result}].
+
+With FALLBACK the import of the compiled extension is blocked BEFORE deap.tools / deap.benchmarks.tools are
+imported, so the library takes its own `except ImportError` branch; the wrappers are then run unpatched
+(back-end key "fb") and the result records which module the library selected.
 """
+import array
 import importlib
 import importlib.util
 import json
@@ -25,7 +30,10 @@ def load_ext(path):
 
 
 def ok(v):
-    v = float(v)
+    try:
+        v = float(v)
+    except Exception as e:  # noqa
+        return ["err", "returned a %s: %s" % (type(v).__name__, str(e)[:100])]
     if math.isnan(v) or math.isinf(v):
         return ["err", "returned %r" % (v,)]
     return ["ok", v]
@@ -48,22 +56,39 @@ class Recorder:
         return v
 
 
+def nested(x):
+    """Current content of an argument object as nested lists of floats (None if it cannot be read)."""
+    try:
+        return [[float(c) for c in row] for row in x]
+    except Exception:  # noqa
+        try:
+            return [float(c) for c in x]
+        except Exception:  # noqa
+            return None
+
+
 def main():
     jobs_path, out_path, so_path = sys.argv[1:4]
     repo = os.environ.get("VERIF_REPO", "/repo")
     sys.path.insert(0, repo)
     warnings.simplefilter("ignore")
     import numpy
+    fallback = so_path == "FALLBACK"
+    if fallback:
+        sys.modules["deap.tools._hypervolume.hv"] = None          # `from ._hypervolume import hv` -> ImportError
     import deap
     got = os.path.realpath(os.path.dirname(os.path.dirname(deap.__file__)))
     if got != os.path.realpath(repo):
         raise RuntimeError("deap imported from %s, expected %s" % (got, repo))
     from deap import base
+    import deap.tools as toolsmod
     pyhv = importlib.import_module("deap.tools._hypervolume.pyhv")
     indmod = importlib.import_module("deap.tools.indicator")
     benchmod = importlib.import_module("deap.benchmarks.tools")
     mods = {"py": pyhv}
-    if so_path != "-":
+    if fallback:
+        mods = {"fb": None}
+    elif so_path != "-":
         mods["c"] = load_ext(so_path)
 
     fitcls = {}
@@ -71,64 +96,208 @@ def main():
     class Ind(list):
         pass
 
-    def population(w, vals):
-        key = tuple(w)
+    def conv(x, kind):
+        if kind == "int":
+            return int(x)
+        if kind == "npfloat64":
+            return numpy.float64(x)
+        if kind == "npfloat32":
+            return numpy.float32(x)
+        if kind == "npint":
+            return numpy.int64(int(x))
+        return float(x)
+
+    def fitness_class(w, wtype):
+        key = (tuple(w), wtype)
         if key not in fitcls:
-            fitcls[key] = type("FitC15_%d" % len(fitcls), (base.Fitness,), {"weights": tuple(w)})
+            ws = tuple(int(x) for x in w) if wtype == "int" else tuple(float(x) for x in w)
+            fitcls[key] = type("FitC15_%d" % len(fitcls), (base.Fitness,), {"weights": ws})
+        return fitcls[key]
+
+    def population(w, vals, wtype="float", valtype="float", sameobj=()):
+        cls = fitness_class(w, wtype)
         pop = []
         for v in vals:
             ind = Ind(v)
-            ind.fitness = fitcls[key]()
-            ind.fitness.values = tuple(v)
+            ind.fitness = cls()
+            ind.fitness.values = tuple(conv(x, valtype) for x in v)
             pop.append(ind)
+        for a, b in sameobj:          # the very same individual object at two positions
+            pop[b] = pop[a]
         return pop
+
+    # ------------------------------------------------------------------ direct calls
+    def build_args(job):
+        pts, ref, form = job["pts"], job["ref"], job.get("form", "arr")
+        n, d = len(pts), len(ref)
+        r = numpy.array(ref, dtype=float)
+        if form == "list":
+            return [list(p) for p in pts], list(ref)
+        if form == "tuple":
+            return tuple(tuple(p) for p in pts), tuple(ref)
+        if form == "intlist":
+            return [[int(c) for c in p] for p in pts], [int(c) for c in ref]
+        if form == "npscalars":
+            return [[numpy.float64(c) for c in p] for p in pts], [numpy.float64(c) for c in ref]
+        if form == "i64":
+            return numpy.array([[int(c) for c in p] for p in pts], dtype=numpy.int64).reshape(n, d), r
+        if form == "i64i64":
+            return (numpy.array([[int(c) for c in p] for p in pts], dtype=numpy.int64).reshape(n, d),
+                    numpy.array([int(c) for c in ref], dtype=numpy.int64))
+        if form == "f32":
+            return numpy.array(pts, dtype=numpy.float32).reshape(n, d), r
+        if form == "fortran":
+            return numpy.asfortranarray(numpy.array(pts, dtype=float).reshape(n, d)), r
+        if form == "strided":
+            big = numpy.full((2 * n + 1, 2 * d + 1), 7.5)
+            big[1::2, 1::2] = numpy.array(pts, dtype=float).reshape(n, d)
+            return big[1::2, 1::2], r
+        if form == "refview":
+            a = numpy.array(list(pts) + [list(ref)], dtype=float)      # the reference point is also a point
+            return a, a[n]
+        if form == "arrayd":
+            return [array.array("d", p) for p in pts], r
+        if form == "arrayrow_list":
+            return [numpy.array(p, dtype=float) for p in pts], list(ref)
+        return numpy.array(pts, dtype=float).reshape(n, d), r
 
     def run_hv(job, be):
         mod = mods[be]
-        pts, ref = job["pts"], job["ref"]
         try:
-            if job.get("aslist") and (be != "py" or not any(ref)):
-                # pyhv subtracts the reference in place (numpy) unless it is the origin; plain lists work then
-                v = mod.hypervolume([list(p) for p in pts], list(ref))
-            else:
-                v = mod.hypervolume(numpy.array(pts, dtype=float).reshape(len(pts), len(ref)),
-                                    numpy.array(ref, dtype=float))
-            return ok(v)
+            a, r = build_args(job)
         except Exception as e:  # noqa
-            return err(e)
+            return {"v": [["err", "harness could not build the arguments: %s" % e]], "keep": True}
+        vals = []
+        for _ in range(2 if job.get("twice") else 1):
+            try:
+                vals.append(ok(mod.hypervolume(a, r)))
+            except Exception as e:  # noqa
+                vals.append(err(e))
+        b, rr = build_args(job)
+        keep = nested(a) == nested(b) and nested(r) == nested(rr)
+        return {"v": vals, "keep": keep}
+
+    def run_hvseq(job, be):
+        """One pyhv._HyperVolume instance computing several fronts in a row (state kept in self.list)."""
+        out = []
+        try:
+            inst = pyhv._HyperVolume(numpy.array(job["ref"], dtype=float))
+        except Exception as e:  # noqa
+            return [err(e)]
+        for pts in job["fronts"]:
+            try:
+                out.append(ok(inst.compute(numpy.array(pts, dtype=float).reshape(len(pts), len(job["ref"])))))
+            except Exception as e:  # noqa
+                out.append(err(e))
+        return out
+
+    def run_probe(job, be):
+        """Error paths of hv.cpp / pyhv: only 'does not kill the interpreter' is of interest."""
+        mod = mods[be]
+        out = []
+        for a, r in ([7.0, [1.0]], [[1.0, 2.0], [3.0, 3.0]], [[[1.0, 2.0]], [3.0]], [[[1.0, 2.0]], 5.0],
+                     [[[1.0, "x"]], [3.0, 3.0]], [[[1.0, 2.0], 3.0], [3.0, 3.0]]):
+            try:
+                mod.hypervolume(a, r)
+                out.append("returned")
+            except Exception as e:  # noqa
+                out.append(type(e).__name__)
+        return out
+
+    # ------------------------------------------------------------------ wrappers
+    def ref_object(job):
+        ref, form = job["refo"], job.get("refform", "arr")
+        if ref is None:
+            return None
+        if form == "list":
+            return list(ref)
+        if form == "tuple":
+            return tuple(ref)
+        if form == "intarr":
+            return numpy.array([int(c) for c in ref], dtype=numpy.int64)
+        return numpy.array(ref, dtype=float)
+
+    def call_wrappers(pop, refobj, explicit_none, route, mod, times):
+        """benchmarks.tools.hypervolume and tools.indicator.hypervolume, `times` times on the same objects."""
+        res = {"bt": [], "ind": [], "contrib": []}
+        indfn = toolsmod.hypervolume if route == "alias" else indmod.hypervolume
+        for _ in range(times):
+            old = benchmod.hv
+            if mod is not None:
+                benchmod.hv = Recorder(mod)
+            try:
+                try:
+                    if refobj is not None:
+                        v = benchmod.hypervolume(pop, refobj)
+                    elif explicit_none:
+                        v = benchmod.hypervolume(pop, None)
+                    else:
+                        v = benchmod.hypervolume(pop)
+                    res["bt"].append(ok(v))
+                except Exception as e:  # noqa
+                    res["bt"].append(err(e))
+            finally:
+                benchmod.hv = old
+            old = indmod.hv
+            rec = Recorder(mod if mod is not None else old)
+            indmod.hv = rec
+            try:
+                try:
+                    if refobj is not None:
+                        i = indfn(pop, ref=refobj)
+                    elif explicit_none:
+                        i = indfn(pop, ref=None)
+                    else:
+                        i = indfn(pop)
+                    res["ind"].append(["ok", int(i)])
+                except Exception as e:  # noqa
+                    res["ind"].append(err(e))
+            finally:
+                indmod.hv = old
+            res["contrib"].append([ok(x) for x in rec.log])
+        return res
 
     def run_pop(job, be):
         mod = mods[be]
-        w, vals, ref = job["w"], job["vals"], job["refo"]
-        res = {}
-        kw = {}
-        if ref is not None:
-            kw["ref"] = numpy.array(ref, dtype=float) if job.get("refarr") else list(ref)
-        pop = population(w, vals)
-        old = benchmod.hv
-        benchmod.hv = Recorder(mod)
-        try:
-            try:
-                v = benchmod.hypervolume(pop, kw["ref"]) if ref is not None else benchmod.hypervolume(pop)
-                res["bt"] = ok(v)
-            except Exception as e:  # noqa
-                res["bt"] = err(e)
-        finally:
-            benchmod.hv = old
-        old = indmod.hv
-        rec = Recorder(mod)
-        indmod.hv = rec
-        try:
-            try:
-                i = indmod.hypervolume(pop, **kw)
-                res["ind"] = ["ok", int(i)]
-            except Exception as e:  # noqa
-                res["ind"] = err(e)
-        finally:
-            indmod.hv = old
-        res["contrib"] = [ok(x) for x in rec.log]
+        pop = population(job["w"], job["vals"], job.get("wtype", "float"), job.get("valtype", "float"),
+                         job.get("sameobj", ()))
+        refobj = ref_object(job)
+        before = ([[float(x) for x in ind.fitness.wvalues] for ind in pop], nested(refobj) if refobj is not None else None,
+                  [list(ind) for ind in pop])
+        res = call_wrappers(pop, refobj, job.get("explicit_none", False), job.get("route", "module"), mod,
+                            2 if job.get("twice") else 1)
+        after = ([[float(x) for x in ind.fitness.wvalues] for ind in pop], nested(refobj) if refobj is not None else None,
+                 [list(ind) for ind in pop])
+        res["keep"] = before == after
+        if be == "fb":
+            res["selected"] = [getattr(indmod.hv, "__name__", "?"), getattr(benchmod.hv, "__name__", "?")]
         return res
 
+    def run_popseq(job, be):
+        """One population object used in a sequence: call, change a fitness, call again, ..."""
+        mod = mods[be]
+        pop = population(job["w"], job["vals"], job.get("wtype", "float"), job.get("valtype", "float"))
+        refobj = ref_object(job)
+        out = [call_wrappers(pop, refobj, False, "module", mod, 1)]
+        for op in job["ops"]:
+            if op[0] == "set":
+                pop[op[1]].fitness.values = tuple(float(x) for x in op[2])
+            elif op[0] == "delset":
+                del pop[op[1]].fitness.values
+                pop[op[1]].fitness.values = tuple(float(x) for x in op[2])
+            elif op[0] == "swap":
+                pop[op[1]], pop[op[2]] = pop[op[2]], pop[op[1]]
+            elif op[0] == "pop":
+                pop.pop(op[1])
+            elif op[0] == "append":
+                ind = Ind(op[1])
+                ind.fitness = fitness_class(job["w"], job.get("wtype", "float"))()
+                ind.fitness.values = tuple(float(x) for x in op[1])
+                pop.append(ind)
+            out.append(call_wrappers(pop, refobj, False, "module", mod, 1))
+        return out
+
+    runners = {"hv": run_hv, "hvseq": run_hvseq, "probe": run_probe, "pop": run_pop, "popseq": run_popseq}
     with open(jobs_path) as jf, open(out_path, "w") as out:
         for idx, line in enumerate(jf):
             job = json.loads(line)
@@ -140,7 +309,7 @@ def main():
                     continue
                 out.write("#%d %s\n" % (idx, be))
                 out.flush()
-                res[be] = run_hv(job, be) if job["k"] == "hv" else run_pop(job, be)
+                res[be] = runners[job["k"]](job, be)
             out.write(json.dumps([idx, res]) + "\n")
             out.flush()
 
